@@ -198,6 +198,10 @@ int read_macho(
     return -1;
   }
 
+  // No section can hold more bytes than the file does.
+  const int file_length = file.get_file_length();
+  const uint64_t max_section_size = file_length > 0 ? file_length : 0;
+
   macho_header.magic_number = file.get_int32();
 
   if (macho_header.magic_number != 0xfeedface &&
@@ -258,6 +262,13 @@ int read_macho(
 
           if (strcmp(macho_section.section_name, "__text") == 0)
           {
+            if (macho_section.size > max_section_size)
+            {
+              printf("Mach-O Error: __text section is bigger than the file\n");
+              file.close_file();
+              return -1;
+            }
+
             long marker = file.tell();
             file.set(macho_section.offset);
 
